@@ -20,6 +20,7 @@ def run_property(prop):
     os.makedirs(os.path.dirname(out_path), exist_ok=True)
     env = dict(os.environ)
     env['VERIF_TIER'] = tier()
+    env['VERIF_SEED'] = str(os.environ.get('VERIF_SEED', '0'))
     t0 = time.time()
     p = subprocess.run([VT, plan, prop, out_path], cwd=MIRSMT, env=env, capture_output=True, text=True, timeout=7200)
     if p.stdout.strip():
